@@ -27,12 +27,15 @@
 (*        of the launcher, remembered for cancellation, seen by the        *)
 (*        application, listed in a control message) for a pilot no request *)
 (*        named / the delivered message does not mean                      *)
-(*   C14.NamedNotKilled  a delivered kill did not cancel the job of a      *)
-(*        launched non-final pilot it means, did not announce it (SAGA),   *)
-(*        did not remember a pilot which is still to come, or that pilot   *)
-(*        was launched later; a request did not send what it has to        *)
-(*        - in particular a kill delivered while work() staged or submitted *)
-(*        the pilot's bulk, which is launched all the same and not killed  *)
+(*   C14.NamedNotKilled  an EVENTUAL obligation (C14 states no immediacy): *)
+(*        a pilot a delivered kill means and finds not final (owe) has its *)
+(*        job canceled and CANCELED announced (SAGA; PSI/J: by the batch   *)
+(*        layer's confirmation) - by the end of the delivery if the pilot  *)
+(*        is registered with the launcher already, else by the end of the  *)
+(*        work() call in which it gets registered (or it is not launched   *)
+(*        and announced CANCELED), and in any case by the end of the trace *)
+(*        (after the flush); a job which ended by itself owes nothing.     *)
+(*        Also: a request did not send what it has to                      *)
 (*   C14.FinalLeft       the application's view left a final state         *)
 (*   C14.StateForWrongPilot  a job state the batch layer reported for one  *)
 (*        pilot was published for another one                              *)
@@ -47,9 +50,12 @@ Traces == Batch.traces
 
 VARIABLES tid, l, lv, cs, pre, named, ext, errs, fin,
           wk,     \* the bulk work() is busy with (after WorkBegin)
-          jc      \* pilots whose batch job got a cancel so far
+          jc,     \* pilots whose batch job got a cancel so far
+          jd,     \* pilots whose batch job reported a final state
+          ann,    \* pilots the launcher announced CANCELED for
+          owe     \* pilots a delivered kill means and found not final
 
-vars == <<tid, l, lv, cs, pre, named, ext, errs, fin, wk, jc>>
+vars == <<tid, l, lv, cs, pre, named, ext, errs, fin, wk, jc, jd, ann, owe>>
 
 T    == Traces[tid]
 Ev   == T.events
@@ -70,6 +76,7 @@ Init ==
   /\ tid \in 1 .. Len(Traces)
   /\ l = 1 /\ lv = [p \in Pids |-> "none"] /\ cs = [p \in Pids |-> "PEND"]
   /\ pre = {} /\ named = {} /\ ext = {} /\ errs = {} /\ fin = FALSE /\ wk = {} /\ jc = {}
+  /\ jd = {} /\ ann = {} /\ owe = {}
 
 \* who a request names (the manager's "all" is every pilot it holds)
 Names(e) == LET U == SeqSet(e.uids) IN
@@ -96,7 +103,10 @@ Resync(e) ==
   /\ cs'  = [p \in Pids |-> Post(e, p).cs]
   /\ pre' = {p \in Pids : Post(e, p).pre} \cup SeqSet(e.prex)
   /\ jc'  = jc \cup SeqSet(e.jobc)
-  /\ lv'  = [p \in Pids |-> IF lv[p] = "dropped" \/ (e.ev = "WorkBegin" /\ p \in SeqSet(e.pids) \cap pre
+  /\ jd'  = IF e.ev = "JobEnds" /\ e.final THEN jd \cup {e.pid} ELSE jd
+  /\ ann' = ann \cup {x[1] : x \in {y \in Pubs(e) : y[2] = "CANCELED"}}
+  \* a pilot which went through work() and is not registered was dropped (CANCELED on arrival)
+  /\ lv'  = [p \in Pids |-> IF lv[p] = "dropped" \/ (e.ev = "Work" /\ p \in SeqSet(e.pids)
                                                       /\ Post(e, p).lv = "none")
                               THEN "dropped" ELSE Post(e, p).lv]
 
@@ -105,31 +115,29 @@ Step ==
   /\ LET e == Ev[l] IN
      /\ l' = l + 1 /\ fin' = FALSE /\ Resync(e)
      /\ CASE e.ev = "WorkBegin" ->
-               LET S    == SeqSet(e.pids)
-                   drop == S \cap pre IN
-               /\ wk' = S \ drop
-               /\ UNCHANGED <<named, ext>>
+               /\ wk' = SeqSet(e.pids)
+               /\ UNCHANGED <<named, ext, owe>>
                /\ errs' = errs \cup Common(e, named, ext)
-                    \* a pilot a kill named before it arrived is not launched, CANCELED is announced
-                    \cup E(\A p \in drop : Post(e, p).lv = "none" /\ <<p, "CANCELED">> \in Pubs(e),
-                           "C14.NamedNotKilled")
-                    \cup E(\A p \in S \ drop : <<p, "CANCELED">> \notin Pubs(e), "C14.KilledNotNamed")
           [] e.ev = "Work" ->
-               \* work() is through.  A pilot of the bulk which a kill - delivered before, while the
-               \* bulk was staged or while it was submitted - had the launcher remember is not alive
-               \* and forgotten: it was not launched, or its job got the cancel
+               \* work() is through: a pilot of the bulk which a delivered kill means (before it
+               \* arrived, while it was staged, while it was submitted) is not alive and forgotten -
+               \* it was not launched and announced CANCELED, or its job got the cancel
                /\ wk' = {}
-               /\ UNCHANGED <<named, ext>>
+               /\ UNCHANGED <<named, ext, owe>>
                /\ errs' = errs \cup Common(e, named, ext)
-                    \cup E(\A p \in wk : Post(e, p).pre => (Post(e, p).lv # "live" \/ p \in jc \cup SeqSet(e.jobc)),
-                           "C14.NamedNotKilled")
-                    \cup E(\A p \in wk : ~Post(e, p).pre => Post(e, p).lv = "live", "X.NotLaunched")
+                    \cup E(\A p \in SeqSet(e.pids) \cap owe :
+                              /\ (Post(e, p).lv = "live" /\ p \notin jd') => p \in jc'
+                              /\ Post(e, p).lv = "none" => p \in ann', "C14.NamedNotKilled")
+                    \* a pilot no delivered kill means is launched, not dropped on arrival
+                    \cup E(\A p \in SeqSet(e.pids) \ owe : Post(e, p).lv = "none" => p \notin ann',
+                           "C14.KilledNotNamed")
+                    \cup E(\A p \in SeqSet(e.pids) \ owe : Post(e, p).lv = "none" => p \in ann', "X.NotLaunched")
           [] e.ev = "Active" ->
-               /\ UNCHANGED <<named, ext, wk>>
+               /\ UNCHANGED <<named, ext, wk, owe>>
                /\ errs' = errs \cup Common(e, named, ext)
           [] e.ev = "JobEnds" ->
                LET ex == IF e.state = "CANCELED" /\ ~e.asked THEN ext \cup {e.pid} ELSE ext IN
-               /\ ext' = ex /\ UNCHANGED <<named, wk>>
+               /\ ext' = ex /\ UNCHANGED <<named, wk, owe>>
                /\ errs' = errs \cup Common(e, named, ex)
                     \* the report is for the pilot the job belongs to, nobody else
                     \cup E(\A x \in Pubs(e) \cup Cbs(e) : x[1] = e.pid, "C14.StateForWrongPilot")
@@ -140,7 +148,7 @@ Step ==
                LET nm   == named \cup Names(e)
                    want == Wanted(e)
                    got  == e.msgs IN
-               /\ named' = nm /\ UNCHANGED <<ext, wk>>
+               /\ named' = nm /\ UNCHANGED <<ext, wk, owe>>
                /\ errs' = errs \cup Common(e, nm, ext)
                     \cup E(Len(got) <= Len(want), "C14.KilledNotNamed")
                     \cup E(Len(got) >= Len(want), "C14.NamedNotKilled")
@@ -157,6 +165,7 @@ Step ==
                    mean == IF kill THEN Meant(U, {p \in Pids : Launched(lvp[p])}) ELSE {}
                    nmx  == IF kill THEN named \cup (mean \cap Pids) ELSE named IN
                /\ named' = nmx /\ UNCHANGED <<ext, wk>>
+               /\ owe' = owe \cup {p \in mean \cap Pids : OwesJobCancel(lvp[p]) \/ OwesRemember(lvp[p])}
                /\ errs' = errs \cup Common(e, nmx, ext)
                     \* exactly the pilots the message means are affected ...
                     \cup E(SeqSet(e.jobc) \subseteq mean, "C14.KilledNotNamed")
@@ -164,28 +173,32 @@ Step ==
                     \cup E(\A p \in Pids : (Post(e, p).pre /\ p \notin pre) => p \in mean, "C14.KilledNotNamed")
                     \cup E(SeqSet(e.prex) \ pre \subseteq mean, "C14.KilledNotNamed")
                     \* ... and each of them gets what it is owed
-                    \cup E(\A p \in mean \cap Pids : OwesJobCancel(lvp[p]) => p \in SeqSet(e.jobc),
+                    \* ... and those which are registered with the launcher already get what they are
+                    \* owed by the end of this delivery (the others: by the end of their work() call)
+                    \cup E(\A p \in (mean \cap Pids) \ jd : OwesJobCancel(lvp[p]) => p \in SeqSet(e.jobc),
                            "C14.NamedNotKilled")
-                    \cup E(\A p \in mean \cap Pids : (OwesJobCancel(lvp[p]) /\ Kind(p) = "saga")
+                    \cup E(\A p \in (mean \cap Pids) \ jd : (OwesJobCancel(lvp[p]) /\ Kind(p) = "saga")
                                                       => <<p, "CANCELED">> \in Pubs(e), "C14.NamedNotKilled")
-                    \cup E(\A p \in mean \cap Pids : OwesRemember(lvp[p]) => Post(e, p).pre, "C14.NamedNotKilled")
           [] e.ev = "End" ->
-               /\ UNCHANGED <<named, ext, wk>>
+               /\ UNCHANGED <<named, ext, wk, owe>>
                /\ errs' = errs \cup Common(e, named, ext)
-                    \* remembered for cancellation, yet alive and never canceled: the kill was lost
-                    \cup E(\A p \in Pids : Post(e, p).pre => (lv[p] # "live" \/ p \in jc), "C14.NamedNotKilled")
+                    \* everything is delivered and confirmed: no pilot a kill means is alive with a job
+                    \* nobody canceled; one which has not arrived is remembered; a canceled job was announced
+                    \cup E(\A p \in owe : /\ (lv[p] = "live" /\ p \notin jd) => p \in jc
+                                          /\ lv[p] = "none" => Post(e, p).pre
+                                          /\ p \in jc => (p \in ann \/ p \in jd), "C14.NamedNotKilled")
                     \* nobody named it, the batch system did not cancel it: not canceled
                     \cup E(\A p \in Pids \ (named \cup ext) : lv[p] # "CANCELED" /\ cs[p] # "CANCELED",
                            "C14.KilledNotNamed")
           [] OTHER ->
-               /\ errs' = errs \cup {"X.UnknownEvent"} /\ UNCHANGED <<named, ext, wk>>
+               /\ errs' = errs \cup {"X.UnknownEvent"} /\ UNCHANGED <<named, ext, wk, owe>>
   /\ UNCHANGED tid
 
 Finish ==
   /\ ~fin /\ l > Len(Ev)
   /\ fin' = TRUE
   /\ PrintT(<<"RESULT", T.tid, errs>>)
-  /\ UNCHANGED <<tid, l, lv, cs, pre, named, ext, errs, wk, jc>>
+  /\ UNCHANGED <<tid, l, lv, cs, pre, named, ext, errs, wk, jc, jd, ann, owe>>
 
 Next == Step \/ Finish
 Spec == Init /\ [][Next]_vars
